@@ -123,7 +123,9 @@ theorem gn_reindexStep {s : St} (hI : GN s) (hp : s.pl = .loop) : GN (reindexSte
   obtain ⟨rlq, racc, rq⟩ := hI
   unfold reindexStep
   split
-  · constructor <;> dsimp only <;> (first | assumption | (gnsimp; first | done | omega))
+  · split
+    · constructor <;> dsimp only <;> (first | assumption | (gnsimp; first | done | omega))
+    · constructor <;> dsimp only <;> (first | assumption | (gnsimp; first | done | omega))
   · constructor <;> dsimp only <;> (first | assumption | (gnsimp; first | done | omega))
 
 theorem gn_lqNotify {s : St} (hI : GN s) : GN (lqNotify s) := by
@@ -202,6 +204,7 @@ theorem gn_tickL {cfg : Cfg} {s s' : St} (hI : GN s) (h : tickL cfg s = some s')
   · cases h
     apply gn_reindexStep _ rfl
     constructor <;> dsimp only <;> (first | assumption | (gnsimp; done))
+  · gnfin
   · obtain ⟨⟨s1, n⟩, he, hs⟩ := map_some h
     subst hs
     have := gn_errStep hI0 he
@@ -416,6 +419,8 @@ theorem gn_killLogsSeq {cfg : Cfg} {s s' : St} (hq : Quiet s) (hI : GN s) (h : k
     have i2 := gn_seqFlush0 q1 i1
     have q3 := quiet_ctlEq q2 (ctlEq_seqProcessLoop (fuel s1) _)
     have i3 := gn_seqProcessLoop (fuel s1) q2 i2
+    split at h
+    · cases h
     obtain ⟨s4, h4, h⟩ := bind_some h
     have q4 := quiet_ctlEq q3 (ctlEq_seqEnactLoop _ h4)
     have i4 := gn_seqEnactLoop _ q3 i3 h4
@@ -493,14 +498,14 @@ theorem gn_init (cfg : Cfg) (n r : Nat) : GN (init cfg n r) := by
     (rintro ⟨c, hc, hu⟩; rw [hrep c hc] at hu; cases hu))
 
 set_option maxHeartbeats 800000 in
-theorem gn_step {cfg : Cfg} (hw : cfg.workers = true) {s s' : St} {a : Act} (hG : G1 s) (hI : GN s)
-    (h : step cfg s a = some s') : GN s' := by
+theorem gn_step {cfg : Cfg} (hw : cfg.workers = true) {s s' : St} {a : Act} (hnp : a.isPanic = false) (hG : G1 s)
+    (hI : GN s) (h : step cfg s a = some s') : GN s' := by
   cases a with
   | tick t =>
     cases t
     · exact gn_tickL hI h
     · exact gn_tickF hI h
-    · exact gn_tickC hI h
+    · exact gn_tickC hI (tickCg_some h)
     · exact gn_tickK hI h
     · exact gn_tickD hG hI h
   | cmTick i => exact gn_tickCm hI h
@@ -538,5 +543,36 @@ theorem gn_step {cfg : Cfg} (hw : cfg.workers = true) {s s' : St} {a : Act} (hG 
   | apiFlush => simp [step, hw] at h
   | apiEnact => simp [step, hw] at h
   | apiClean => simp [step, hw] at h
+  | defer =>
+    obtain ⟨rlq, racc, rq⟩ := hI
+    simp only [step] at h
+    split at h
+    · split at h
+      · rename_i b hp
+        cases h
+        refine ⟨by simp [RLQ], by simpa [RACC, pendL, hp] using racc, ?_⟩
+        intro hex
+        have := rq hex
+        show sum (s.q ++ [b]) > MAXQ
+        rw [sum_append]; omega
+      · cases h
+    · cases h
+  | panic t => cases hnp
+  | iterHold | iterRelease | dropEnacted k | makeCycle =>
+    simp only [step] at h
+    split at h
+    · cases h; exact ⟨hI.rlq, hI.racc, hI.rq⟩
+    · cases h
+  | lockTree | unlockTree =>
+    simp only [step] at h
+    cases h; exact ⟨hI.rlq, hI.racc, hI.rq⟩
+  | grow k =>
+    simp only [step] at h
+    split at h
+    · cases h; exact ⟨hI.rlq, hI.racc, hI.rq⟩
+    · split at h
+      · cases h; exact ⟨hI.rlq, hI.racc, hI.rq⟩
+      · cases h
+    · cases h
 
 end Pdb.Conc.Pipe
